@@ -469,9 +469,10 @@ def run_literals(tier, ev, verd, cases, tag="lit"):
 
 # ------------------------------------------------------------------ S->I: operators
 
-def prec_cfg(path, n, minemit):
+def prec_cfg(path, n, minemit, mode="ops", big=False):
     with open(path, "w") as f:
-        f.write("SPECIFICATION MCSpec\nCONSTANTS\n  N = %d\n  MinEmit = %d\nINVARIANT Emit\nCHECK_DEADLOCK FALSE\n" % (n, minemit))
+        f.write("SPECIFICATION MCSpec\nCONSTANTS\n  N = %d\n  MinEmit = %d\n  Mode = \"%s\"\n  Big = %s\nINVARIANT Emit\n"
+                "CHECK_DEADLOCK FALSE\n" % (n, minemit, mode, "TRUE" if big else "FALSE"))
 
 
 def generate_ops(tier, ev):
@@ -721,6 +722,301 @@ def adequacy(cases, valsets):
         total += alts
         separated += alts - max(same, 0)
     return total, separated
+
+
+# ------------------------------------------------------------------ S->I: prefix x postfix, blocks in expression position
+
+ATOM_TEXT = {"lit_2p0_f64": "2.0f64", "lit_1p5_f64": "1.5f64", "lit_0p5_f64": "0.5f64", "lit_2e0_f64": "2e0f64",
+             "lit_15em1_f64": "15e-1f64", "lit_2p25_f64": "2.25f64", "lit_2p5_f32": "2.5f32", "lit_1p5_f32": "1.5f32",
+             "lit_3_i64": "3i64", "var_f": "xf", "var_g": "xg", "var_i": "xi", "var_b": "xb", "var_s": "xs", "var_r": "r",
+             "var_o": "o", "paren_lit": "(1.5f64)", "paren_var": "(xf)", "paren_neg": "(-1.5f64)", "call_f": "gf()",
+             "call_i": "gi()", "lit_true": "true", "lit_str": "\"ab\""}
+ATOM_CLASS = {"lit_2p0_f64": "float-literal", "lit_1p5_f64": "float-literal", "lit_0p5_f64": "float-literal",
+              "lit_2e0_f64": "float-literal-exponent", "lit_15em1_f64": "float-literal-exponent", "lit_2p25_f64": "float-literal",
+              "lit_2p5_f32": "float-literal", "lit_1p5_f32": "float-literal", "lit_3_i64": "integer-literal", "var_f": "variable",
+              "var_g": "variable", "var_i": "variable", "var_b": "variable", "var_s": "variable", "var_r": "record-variable",
+              "var_o": "option-variable", "paren_lit": "parenthesised", "paren_var": "parenthesised", "paren_neg": "parenthesised",
+              "call_f": "call-result", "call_i": "call-result", "lit_true": "bool-literal", "lit_str": "string-literal"}
+SUF_TEXT = {"abs": ".abs()", "ceil": ".ceil()", "floor": ".floor()", "round": ".round()", "pow2": ".pow(2.0)", "sqrt": ".sqrt()",
+            "is_nan": ".is_nan()", "to_string": ".to_string()", "field_x": ".x", "field_b": ".b", "field_n": ".n", "try": "?",
+            "contains_a": ".contains(\"a\")"}
+PX_LETS = ("let xf: f64 = 2.5; let xg: f32 = 1.5; let xi: i64 = 3; let xb: bool = true; let xs: String = \"ab\"; "
+           "let r = { x: 1.5f64, b: true, n: 3i64 }; let o: i64? = Some(4); ")
+TEN = {"f64": "10.0f64", "f32": "10.0f32", "i64": "10i64"}
+DEFAULT = {"f64": "0.0", "f32": "0.0", "i64": "0", "bool": "false", "String": "\"\""}
+
+
+def px_core_text(px, paren):
+    t = ATOM_TEXT[px["atom"]]
+    for sfx in px["post"]:
+        t = ("(" + t + ")" if paren else t) + SUF_TEXT[sfx]
+    for op in reversed(px["pre"]):
+        o = OPTEXT[op]
+        if paren:
+            t = "(" + o + t + ")"
+        else:
+            t = o + (" " if o == "-" and t.startswith("-") else "") + t
+    return t
+
+
+def px_text(px, paren, oty):
+    core = px_core_text(px, paren)
+    c = px["ctx"]
+    ten = TEN.get(oty, "10.0f64")
+    return {"none": core, "sub_r": ten + " - " + core, "add_r": ten + " + " + core, "mul_r": ten + " * " + core,
+            "sub_l": core + " - " + ten, "lt_r": ten + " < " + core, "and_r": "true && " + core}[c]
+
+
+def px_script(px, paren, oty, rty):
+    expr = px_text(px, paren, oty)
+    head = "fn gf() -> f64 { 2.5 }\nfn gi() -> i64 { 3 }\n"
+    if "try" in px["post"]:
+        src = head + "fn h() -> %s? { %sSome(%s) }\nfn f() -> %s { match h() { Some(v) => v, None => %s } }\n" % (
+            rty, PX_LETS, expr, rty, DEFAULT[rty])
+    else:
+        src = head + "fn f() -> %s { %s%s }\n" % (rty, PX_LETS, expr)
+    return {"src": src, "fns": [{"n": "f", "t": rty}]}
+
+
+def rtype_of(res):
+    return {"float": res.get("ty"), "int": "i64", "bool": "bool", "str": "String"}.get(res.get("t"))
+
+
+def px_candidates(px):
+    """(operand type, return type) pairs to try when the types are not known (input selection, no oracle)."""
+    c = px["ctx"]
+    if c == "none":
+        return [(None, t) for t in ("f64", "f32", "i64", "bool", "String")]
+    if c == "and_r":
+        return [(None, "bool")]
+    if c == "lt_r":
+        return [(t, "bool") for t in ("f64", "f32", "i64")]
+    return [(t, t) for t in ("f64", "f32", "i64")]
+
+
+def result2(v, ty):
+    """harness value -> Prec result record (TVResult / BlockExpected representation)."""
+    if "missing" in v:
+        return {"t": "missing", "why": v["missing"]}
+    if "bits" in v:
+        d = decode_float(int(v["bits"]), ty)
+        if "special" in d:
+            return {"t": "float", "ty": ty, "special": d["special"]}
+        m = int("".join(str(x) for x in d["m"]))
+        # the sign of a zero is not modelled by the rational values of the specification
+        return {"t": "float", "ty": ty, "neg": d["neg"] and not d["zero"], "zero": d["zero"], "m": m, "k": d["k"]}
+    if "dec" in v:
+        n = int(v["dec"])
+        return {"t": "int", "neg": n < 0, "abs": abs(n)}
+    if "b" in v:
+        return {"t": "bool", "b": v["b"]}
+    if "cps" in v:
+        return {"t": "str", "cps": v["cps"]}
+    return {"t": "unexpected", "v": v}
+
+
+def observe2(cases_rtys):
+    """run [(harness case, return type)] -> result records ({"t":"typeerr"|"parseerr"|"abnormal"|..})"""
+    results = vlib.run_batch("c09", [c for c, _ in cases_rtys], nproc=8, pid=PID, tag="px", stall=30)
+    out = []
+    for (c, rty), res in zip(cases_rtys, results):
+        if vlib.outcome_of(res) != "returned":
+            out.append(({"t": "abnormal"}, res))
+            continue
+        r = res["r"]
+        if r["compile"] == "err":
+            out.append(({"t": "typeerr" if r["kinds"] == ["type"] else "parseerr" if r["kinds"] == ["parse"] else "error:" + ",".join(r["kinds"]),
+                         "msg": r.get("msg")}, res))
+        else:
+            out.append((result2(r["vals"][0], rty), res))
+    return out
+
+
+def strip_msg(o):
+    return {k: v for k, v in o.items() if k != "msg"}
+
+
+def observe_untyped(items, script_of, candidates_of):
+    """items whose types are not known: try the candidate typings, first one that compiles wins; typeerr when none does."""
+    jobs = []
+    for k, it in enumerate(items):
+        for cand in candidates_of(it):
+            jobs.append((k, cand, script_of(it, cand)))
+    obs = observe2([(j[2], j[1][1]) for j in jobs])
+    final = [None] * len(items)
+    for (k, cand, _), (o, res) in zip(jobs, obs):
+        cur = final[k]
+        rank = {"abnormal": 4, "parseerr": 3, "typeerr": 1}.get(o["t"], 2 if o["t"].startswith("error") else 5 if o["t"] in ("missing", "unexpected") else 6)
+        if cur is None or rank > cur[0]:
+            final[k] = (rank, o, res, cand)
+    return [(f[1], f[2], f[3]) for f in final]
+
+
+def generate_px(tier, ev):
+    d = vlib.workdir(PID, "cfg")
+    big = tier != "quick"
+    out = {}
+    for mode, n in (("postfix", 1 if not big else 2), ("block", 0)):
+        cfg = os.path.join(d, "prec_%s.cfg" % mode)
+        prec_cfg(cfg, n, 0, mode, big)
+        r = run_tlc("MCPrec", cfg, workers=6, timeout=1500, coverage=False, heap="6g")
+        require_tlc_ok(r, "MCPrec %s" % mode)
+        ev.add_tlc(r)
+        out[mode] = r.replay
+    return out["postfix"], out["block"]
+
+
+def px_coverage(cases):
+    seen = set()
+    for c in cases:
+        px, exp, alt = c["px"], c["exp"], c["alt"]
+        if exp["t"] == "any":
+            continue
+        disc = exp != alt
+        cls = ATOM_CLASS[px["atom"]]
+        for sfx in px["post"]:
+            seen.add("suffix:" + sfx)
+        seen.add("atom:" + cls)
+        seen.add("pre:" + "".join(OPTEXT[o] for o in px["pre"]))
+        seen.add("ctx:" + px["ctx"])
+        if disc and px["pre"] and px["post"]:
+            seen.add("discriminating:" + cls)
+            seen.add("discriminating:" + px["post"][0])
+            seen.add("discriminating-ctx:" + px["ctx"])
+    need = ["suffix:" + x for x in SUF_TEXT] + ["atom:" + x for x in set(ATOM_CLASS.values())]
+    need += ["pre:-", "pre:!", "pre:--", "pre:!!", "ctx:none", "ctx:sub_r", "ctx:mul_r"]
+    need += ["discriminating:" + x for x in ("float-literal", "float-literal-exponent", "integer-literal", "variable", "parenthesised",
+                                              "call-result", "record-variable", "pow2", "floor", "ceil", "abs", "to_string", "field_x")]
+    need += ["discriminating-ctx:sub_r", "discriminating-ctx:mul_r"]
+    missing = [n for n in need if n not in seen]
+    if missing:
+        raise vlib.ToolError("prefix/postfix cases never generated (vacuous run): %s" % missing)
+    return sum(1 for c in cases if c["exp"]["t"] != "any" and c["exp"] != c["alt"])
+
+
+def run_px(tier, ev, verd, cases, tag="px"):
+    """prefix x postfix cases: flat and fully parenthesised text against TLC's expectation."""
+    typed, untyped = [], []
+    for c in cases:
+        exp = c["exp"]
+        if exp["t"] == "any":
+            continue
+        (untyped if exp["t"] == "typeerr" else typed).append(c)
+    jobs = []
+    for c in typed:
+        rty = rtype_of(c["exp"])
+        oty = c["oty"] if c["oty"] in TEN else "f64"
+        for paren in (False, True):
+            jobs.append((c, paren, px_text(c["px"], paren, oty), px_script(c["px"], paren, oty, rty), rty))
+    obs = observe2([(j[3], j[4]) for j in jobs])
+    for (c, paren, text, _, rty), (o, res) in zip(jobs, obs):
+        form = "paren" if paren else "flat"
+        ev.case({"prefix_postfix": c["px"], "form": form, "text": text, "expect": c["exp"]}, True, key=vlib.shash(["px", form, c["px"]]))
+        ev.traces += 1
+        if strip_msg(o) != c["exp"]:
+            verd.report({"family": "prefix-postfix", "form": form, "failure": "abnormal" if o["t"] == "abnormal" else "grouping",
+                         "atom": ATOM_CLASS[c["px"]["atom"]]},
+                        "expression `%s`: a prefix operator applies to the whole access expression (atom and its suffixes); "
+                        "specification: %s, roto: %s" % (text, json.dumps(c["exp"]), json.dumps(o)[:300]),
+                        {"kind": "px", "case": c, "form": form, "text": text, "result": res})
+    # ill-typed under the grammar's reading: no typing of the probing function may make it compile
+    for paren in (False, True):
+        form = "paren" if paren else "flat"
+        res_u = observe_untyped(untyped, lambda c, cand: px_script(c["px"], paren, cand[0] or "f64", cand[1]), lambda c: px_candidates(c["px"]))
+        for c, (o, res, cand) in zip(untyped, res_u):
+            text = px_text(c["px"], paren, cand[0] or "f64")
+            ev.case({"prefix_postfix": c["px"], "form": form, "text": text, "expect": c["exp"]}, True, key=vlib.shash(["px", form, c["px"]]))
+            ev.traces += 1
+            if o["t"] != "typeerr":
+                verd.report({"family": "prefix-postfix", "form": form, "failure": "abnormal" if o["t"] == "abnormal" else "grouping",
+                             "atom": ATOM_CLASS[c["px"]["atom"]]},
+                            "expression `%s` is ill typed when the prefix operator applies to the whole access expression; "
+                            "expected a type error, roto (function returning %s): %s" % (text, cand[1], json.dumps(o)[:300]),
+                            {"kind": "px", "case": c, "form": form, "text": text, "result": res})
+    return 2 * (len(typed) + len(untyped))
+
+
+BLOCK_INNER = {"fstr": "f\"a{x}\"", "fstr_interp_first": "f\"{x}b\"", "fstr_multibyte": "f\"é {x}\"", "fstr_plain": "f\"hi\"",
+               "str": "\"ab\"", "num": "7", "ident": "x", "paren": "(x)", "neg": "-x", "not": "!b", "if": "if b { 1 } else { 2 }",
+               "match": "match o { Some(y) => y, None => 0 }", "nested": "{ 7 }", "let": "let z: i64 = 3; z", "call": "idi(3)",
+               "true": "true", "list": "[1, 2]", "record": "a: 1", "empty": ""}
+BLOCK_TYPE = {"fstr": "String", "fstr_interp_first": "String", "fstr_multibyte": "String", "fstr_plain": "String", "str": "String",
+              "not": "bool", "true": "bool"}
+BLOCK_HEAD = "fn idi(x: i64) -> i64 { x }\nfn ids(x: String) -> String { x }\nfn idb(x: bool) -> bool { x }\n"
+BLOCK_LETS = "let x: i64 = 5; let b: bool = true; let o: i64? = Some(4); "
+
+
+def block_text(bx):
+    inner = BLOCK_INNER[bx["kind"]]
+    t = "{ " + inner + " }" if inner else "{}"
+    for _ in range(bx["wrap"]):
+        t = "{ " + t + " }"
+    return t
+
+
+def block_script(bx):
+    kind, pos = bx["kind"], bx["pos"]
+    blk = block_text(bx)
+    ty = BLOCK_TYPE.get(kind, "i64")
+    rty = ty
+    if pos == "let":
+        obs = {"list": "v.len()", "record": "v.a", "empty": "7"}.get(kind, "v")
+        rty = {"list": "u64", "record": "i64", "empty": "i64"}.get(kind, ty)
+        body = "let v = %s; %s" % (blk, obs)
+    elif pos == "arg":
+        body = "%s(%s)" % ({"i64": "idi", "String": "ids", "bool": "idb"}[ty], blk)
+    elif pos == "operand":
+        body = {"i64": "1 + %s", "String": "\"p\" + %s", "bool": "true && %s"}[ty] % blk
+    elif pos == "arm":
+        body = "match o { Some(q) => %s, None => %s }" % (blk, blk)
+    elif pos == "ifcond":
+        body, rty = "if %s == %s { 1 } else { 2 }" % (blk, blk), "i64"
+    elif pos == "tail":
+        body = blk
+    elif pos == "ret":
+        body = "return %s" % blk
+    elif pos == "listel":
+        body, rty = "let l = [%s]; 7" % blk, "i64"
+    elif pos == "assign":
+        body, rty = "let v = %s; v = %s; 7" % (blk, blk), "i64"
+    elif pos == "fstr_interp":
+        body, rty = "f\"<{ %s }>\"" % blk, "String"
+    else:
+        raise vlib.ToolError("unknown block position %r" % pos)
+    return {"src": BLOCK_HEAD + "fn f() -> %s { %s%s }\n" % (rty, BLOCK_LETS, body), "fns": [{"n": "f", "t": rty}]}, rty, body
+
+
+def block_coverage(cases):
+    seen = set()
+    for c in cases:
+        if c["exp"]["t"] != "any":
+            seen.add((c["bx"]["pos"], c["bx"]["kind"]))
+            seen.add("pos:" + c["bx"]["pos"])
+            seen.add("kind:" + c["bx"]["kind"])
+    need = ["kind:" + k for k in BLOCK_INNER] + ["pos:" + p for p in ("let", "arg", "operand", "arm", "ifcond", "tail", "ret", "listel", "assign", "fstr_interp")]
+    need += [(p, "fstr") for p in ("let", "arg", "operand", "arm", "ifcond", "tail", "ret", "listel", "assign", "fstr_interp")]
+    missing = [n for n in need if n not in seen]
+    if missing:
+        raise vlib.ToolError("block cases never generated (vacuous run): %s" % missing)
+
+
+def run_blocks(tier, ev, verd, cases, tag="blk"):
+    jobs = []
+    for c in cases:
+        if c["exp"]["t"] == "any":
+            continue
+        hc, rty, body = block_script(c["bx"])
+        jobs.append((c, hc, rty, body))
+    obs = observe2([(j[1], j[2]) for j in jobs])
+    for (c, hc, rty, body), (o, res) in zip(jobs, obs):
+        ev.case({"block": c["bx"], "text": body, "expect": c["exp"]}, True, key=vlib.shash(["blk", c["bx"]]))
+        ev.traces += 1
+        if strip_msg(o) != c["exp"]:
+            verd.report({"family": "block", "failure": "abnormal" if o["t"] == "abnormal" else "rejected-should-accept" if o["t"].endswith("err") else "wrong-value",
+                         "first_token": c["bx"]["kind"], "position": c["bx"]["pos"]},
+                        "block in expression position `%s`: specification: %s, roto: %s" % (body, json.dumps(c["exp"]), json.dumps(o)[:300]),
+                        {"kind": "block", "case": c, "text": body, "result": res})
+    return len(jobs)
 
 
 # ------------------------------------------------------------------ I->S: seeded random spellings beyond TLC's bounds
@@ -986,6 +1282,25 @@ def gen_expr(rng):
     return w, lt, vals
 
 
+def gen_px(rng):
+    floaty = ["abs", "ceil", "floor", "round", "pow2", "abs", "floor", "ceil", "pow2", "sqrt"]
+    atom = rng.choice(list(ATOM_TEXT))
+    post = []
+    if atom == "var_r" and rng.random() < 0.8:
+        post.append(rng.choice(["field_x", "field_x", "field_b", "field_n"]))
+    if atom == "var_o" and rng.random() < 0.8:
+        post.append("try")
+    for _ in range(rng.choice([0, 1, 1, 2, 2, 3, 4])):
+        post.append(rng.choice(floaty) if rng.random() < 0.8 else rng.choice(list(SUF_TEXT)))
+    pre = [rng.choice(["neg", "neg", "neg", "not"]) for _ in range(rng.choice([0, 1, 1, 1, 2, 2, 3, 4]))]
+    return {"pre": pre, "atom": atom, "post": post[:5], "ctx": rng.choice(["none", "none", "sub_r", "mul_r", "sub_l", "add_r", "lt_r", "and_r"])}
+
+
+def gen_block(rng):
+    return {"pos": rng.choice(["let", "arg", "operand", "arm", "ifcond", "tail", "ret", "listel", "assign", "fstr_interp"]),
+            "kind": rng.choice(list(BLOCK_INNER) + ["fstr", "fstr_interp_first", "fstr_multibyte"]), "wrap": rng.choice([0, 1, 2, 3, 4, 6, 8])}
+
+
 def record_events(tier, rng):
     """-> list of (event-without-obs, harness case, family, type, text)"""
     q = tier == "quick"
@@ -1059,8 +1374,23 @@ def impl_to_spec(tier, ev, verd):
         events.append(e2)
         origin.append((text, ty, res))
         ev.impl_actions.add(fam)
+    # prefix x postfix and block events (their probing functions are typed by trying the candidate typings)
+    npx, nblk = (700, 300) if tier == "quick" else (4200, 1800)
+    pxs = [gen_px(rng) for _ in range(npx)]
+    for paren in (False,):
+        got = observe_untyped(pxs, lambda px, cand: px_script(px, paren, cand[0] or "f64", cand[1]), px_candidates)
+        for px, (o, res, cand) in zip(pxs, got):
+            events.append({"fam": "postfix", "px": px, "obs": strip_msg(o)})
+            origin.append((px_text(px, paren, cand[0] or "f64"), cand[1], res))
+            ev.impl_actions.add("postfix")
+    bxs = [gen_block(rng) for _ in range(nblk)]
+    scripts = [block_script(bx) for bx in bxs]
+    for bx, (hc, rty, body), (o, res) in zip(bxs, scripts, observe2([(sc[0], sc[1]) for sc in scripts])):
+        events.append({"fam": "block", "bx": bx, "obs": strip_msg(o)})
+        origin.append((body, rty, res))
+        ev.impl_actions.add("block")
     # expressions: resolve the blind return type (second compile with the other type when the first was a type error)
-    retry = [(k, e) for k, e in enumerate(events) if e["fam"] == "expr" and e["obs"]["cls"] == "typeerr"]
+    retry = [(k, e) for k, e in enumerate(events) if e["fam"] == "expr" and e["obs"].get("cls") == "typeerr"]
     if retry:
         cases = []
         for k, e in retry:
@@ -1086,8 +1416,15 @@ def impl_to_spec(tier, ev, verd):
         fam = e["fam"]
         res = origin[k][2]
         rep = {"kind": "trace", "event": e, "expected": exp, "text": origin[k][0], "type": origin[k][1], "result": res}
-        abnormal = vlib.outcome_of(res).split(":")[0] if e["obs"]["cls"] == "abnormal" else None
-        if fam == "expr":
+        abnormal = vlib.outcome_of(res).split(":")[0] if e["obs"].get("cls") == "abnormal" else None
+        if fam == "postfix":
+            sig = {"family": "prefix-postfix", "form": "flat", "failure": "abnormal" if e["obs"]["t"] == "abnormal" else "grouping",
+                   "atom": ATOM_CLASS[e["px"]["atom"]]}
+        elif fam == "block":
+            o = e["obs"]
+            sig = {"family": "block", "failure": "abnormal" if o["t"] == "abnormal" else "rejected-should-accept" if o["t"].endswith("err") else "wrong-value",
+                   "first_token": e["bx"]["kind"], "position": e["bx"]["pos"]}
+        elif fam == "expr":
             sig = {"family": "operators", "form": "flat",
                    "failure": abnormal or ("accepted-should-reject" if exp["cls"] == "reject" else
                                            "rejected-should-accept" if e["obs"]["cls"] == "reject" else "grouping")}
@@ -1106,7 +1443,7 @@ def impl_to_spec(tier, ev, verd):
     # negative control: a corrupted observation must be rejected at exactly that line
     unmatched = set(un["line"] - 1 for un in r.replay)
     ctrl = [dict(e) for k, e in enumerate(events) if k not in unmatched][:400]
-    pos = next((k for k, e in enumerate(ctrl) if e["fam"] in ("str", "fstr") and e["obs"]["cls"] == "val" and e["obs"]["v"]), None)
+    pos = next((k for k, e in enumerate(ctrl) if e["fam"] in ("str", "fstr") and e["obs"].get("cls") == "val" and e["obs"]["v"]), None)
     if pos is not None:
         ctrl[pos] = dict(ctrl[pos], obs={"cls": "val", "v": ctrl[pos]["obs"]["v"][:-1] + [ctrl[pos]["obs"]["v"][-1] + 1]})
         cpath = os.path.join(d, "trace_corrupted.ndjson")
@@ -1134,15 +1471,24 @@ def run(tier):
     nneed = literal_coverage(lits)
     ops, valsets, exh_ops = generate_ops(tier, ev)
     npairs = ops_coverage(ops)
+    pxs, blks = generate_px(tier, ev)
+    ndisc = px_coverage(pxs)
+    block_coverage(blks)
     nlit = run_literals(tier, ev, verd, lits)
+    npx = run_px(tier, ev, verd, pxs)
+    nblk = run_blocks(tier, ev, verd, blks)
     nops, ndiff = run_ops(tier, ev, verd, ops, valsets)
     tot, sep = adequacy(ops, valsets)
     impl_to_spec(tier, ev, verd)
     ev.exhaustive = True
-    ev.extra["exhaustive_parts"] = exh + [exh_ops]
+    ev.extra["exhaustive_parts"] = exh + [exh_ops, "prefix x atom x suffix x context: %d cases" % len(pxs),
+                                          "block position x first token x nesting: %d cases" % len(blks)]
     ev.extra["literal_cases_run"] = nlit
     ev.extra["unclaimed_spellings_skipped"] = sum(1 for c in lits if c["den"]["cls"] == "any")
     ev.extra["operator_forms_run"] = nops
+    ev.extra["prefix_postfix_forms_run"] = npx
+    ev.extra["prefix_postfix_cases_where_the_two_readings_differ"] = ndisc
+    ev.extra["block_position_cases_run"] = nblk
     ev.extra["flat_vs_parenthesised_comparisons"] = ndiff
     ev.extra["coverage_items_required_and_seen"] = nneed
     ev.extra["adjacent_binary_operator_pairs_seen"] = npairs
